@@ -8,28 +8,16 @@ TECH = 'Verus contracts on functions extracted verbatim from /repo (deductive, Z
 
 CHECKS = {
     'C01': dict(
-        text='Proof of per-function obligations (partial): the mode/parenthesis guard G (exact shape of optional_paren; only '
-             'self-delimited constructs go unprotected; bodies evaluated in continued-code mode), the table reflow gate (is_formatable '
-             'implies no comment, no spread, named-before-cells, at least one cell, no special cell), exact spacing contract of the flow '
-             'engine, exact Context/Mode helpers, exact newline recognition, list engine never loses an item (counts).',
-        note='Partial by a wide margin: token-sequence preservation W is proved only for the functions listed in evidence; the parser and the '
-             'renderer are outside the contracts, so tree equivalence itself is never concluded. Trusted: shims, parser facts.',
+        text='Proof of per-function obligations (partial): W -- the significant words (tokens evaluation can see, and comments) of a node are carried by the document in the same order in every layout, nothing added, dropped, duplicated or reordered -- for the flow engine, 14 flow-based converters and their wrappers, the leaf converters, the dispatchers convert_expr/convert_expr_impl/convert_pattern, func_call.rs (callee + parenthesized part + trailing content blocks), convert_math and the markup engine (line representation == children in order; one piece per entry); the mode/parenthesis guard G (exact shape of optional_paren; only self-delimited constructs go unprotected; bodies evaluated in continued-code mode); the paren-removal gate; the table reflow gate; exact spacing contract of the flow engine; exact Context/Mode helpers (also Kani, complete); exact newline recognition.',
+        note="Partial: W is ASSUMED (clause `words_preserved assumed`, listed in evidence) for the list-, chain- and table-based converters and for the functions outside the verifier's reach (closures capturing &mut); the parser and the renderer are outside the contracts, so tree equivalence itself is never concluded. Known findings C01-F2..F5 are printed, not proved. Trusted: shims, parser facts PF0-PF13 (validated on the corpus in the thorough tier).",
         ref='DESIGN.md 5/C01', technique=TECH),
     'C04': dict(
-        text='Proof of per-function obligations (partial): line-comment transformer safety T -- over every layout the renderer can choose, '
-             'no text ever follows an unterminated `//` comment and every converter result ends outside a comment -- for the flow engine and '
-             'every converter built on it, the optional-parenthesis guard G (exact shape of optional_paren; unprotected only for '
-             'self-delimited constructs; body evaluated in continued-code mode).',
-        note='Partial: list/chain/plain engines and the functions of DESIGN 3.4 are contract-only stubs here unless listed in evidence as '
-             'under contract; token fusion is only covered by the exact push_doc spacing contract. Trusted: parser facts PF0-PF2 '
-             '(prelude/treefacts.rs), pretty shim, renderer only ever picks a layout in the join semantics of T.',
+        text='Proof of per-function obligations (partial): line-comment transformer safety T -- over every layout the renderer can choose, no text ever follows an unterminated `//` comment and every converter result ends outside a comment -- for the flow, list, chain and plain layout engines, the markup and math engines and every converter built on them; the optional-parenthesis guard G (exact shape of optional_paren; unprotected only for self-delimited constructs; body evaluated in continued-code mode, delimiters matching the mode).',
+        note="Partial: functions outside the verifier's reach (DESIGN 3) are contract-only stubs; token fusion is covered only by the exact push_doc spacing contract (known findings C04-F2..F6 are of that kind). Trusted: parser facts (prelude/treefacts.rs; known exclusion: raw text lines starting with //), pretty shim, renderer only ever picks a layout in the join semantics of T.",
         ref='DESIGN.md 5/C04', technique=TECH),
     'C06': dict(
-        text='Proof of per-function obligations (partial): T (no comment absorbs code, no code inside a comment) for the flow engine and its '
-             'converters; line comments re-emitted as Text(token text); the attribute pass flags every node with a comment child; '
-             'has_linebreak/count_linebreaks recognise every Typst newline.',
-        note='Partial: comment order/placement (W) is proved only for the functions listed in evidence; engines not under contract are assumed. '
-             'Trusted: parser facts, shims.',
+        text='Proof of per-function obligations (partial): W over words AND comments (so a comment keeps its order and its neighbouring words) for the functions listed under C01; T (no comment absorbs code, no code inside a comment) for all four layout engines and the markup/math engines; line comments re-emitted as Text(token text), block comments as aligned plain lines cut only by ASCII leading blanks; list attach/detach never reorders or loses a comment; chain items never drop a comment; the attribute pass flags every node with a comment child; has_linebreak/count_linebreaks recognise every Typst newline.',
+        note='Partial: W is assumed for list/chain/table-based converters (listed in evidence). Known findings C06-F2 printed. Trusted: parser facts, shims.',
         ref='DESIGN.md 5/C06', technique=TECH),
     'C12': dict(
         text='Proof of per-function obligations (partial): N -- every Nest a function under contract builds has amount config.tab_spaces, and '
@@ -43,7 +31,7 @@ CHECKS = {
              'format_source_inspect refuses iff the root is erroneous; format_with_width returns its input on refusal.',
         note='Partial w.r.t. the whole property: functions not (yet) under contract, recursion through closures (termination), stack/heap '
              'exhaustion and hangs inside the pretty renderer are not covered. Trusted: Verus/Z3, shims of typst-syntax/pretty/std '
-             '(listed in evidence), rewrite rules R1-R21.',
+             '(listed in evidence), rewrite rules R1-R24; Kani (thorough tier): bounded byte-level checks of trim_range, count_spaces_after_last_newline, has_linebreak/count_linebreaks (all valid UTF-8 strings of <= 3 bytes; labelled bounded, not counted as proved).',
         ref='DESIGN.md 5/C05', technique=TECH),
     'C07': dict(
         text='Proof: the attribute pass marks exactly the spans given by the declarative spec marks_sub (directive comments and the first '
@@ -54,12 +42,8 @@ CHECKS = {
              'entry/or_default shim, str::contains shim, typst-syntax tree model, definitional axiom of marks_sub.',
         ref='DESIGN.md 5/C07', technique=TECH),
     'C08': dict(
-        text='Proof of per-function obligations (partial): Text tokens are re-emitted as Text(full source text); a whitespace token becomes '
-             'exactly a blank or a mandatory line break according to whether it held a (Typst) newline; a paragraph break becomes exactly '
-             'count_linebreaks(text) mandatory breaks; has_linebreak/count_linebreaks are exact w.r.t. Typst\'s newline set; '
-             'get_fold_style never yields the never-fold style when breaks are suppressed; suppress_breaks is exact.',
-        note='Partial: collect_markup_repr / convert_markup_impl (the line regrouping itself) are contract-only stubs unless listed in evidence. '
-             'Trusted: shims, parser facts.',
+        text='Proof for the markup engine: collect_markup_repr -- the flattened line representation equals the children of the Markup node in order, with line-ending children as runs of n breaks (n = count of Typst newlines for a paragraph break, 1 for a line break), only one leading blank and one trailing whitespace token moved to the edges; a line is marked as prose iff it holds text/strong/emph/raw; no blank is invented at an edge next to plain content. convert_markup_impl -- exactly one piece per entry in order: blank -> blank, Text -> its full source text, tokens -> their own text, n breaks -> n mandatory breaks, embedded code converted with breaks suppressed on prose lines, only blank/break documents at the edges. Leaf converters exact; has_linebreak/count_linebreaks exact; get_fold_style never yields the never-fold style when breaks are suppressed.',
+        note='Trusted: shims, parser facts (PF6: whitespace tokens are never adjacent; PF7: nested markup never ends in a line comment), the documents embedded code yields when breaks are suppressed are covered by the callee contracts only.',
         ref='DESIGN.md 5/C08', technique=TECH),
     'C09': dict(
         text='Proof for the math engine: convert_math emits exactly one piece per child in order (whitespace -> blank / mandatory break by '
@@ -120,6 +104,9 @@ CHECKS = {
 }
 
 NOT_APPLICABLE = {
+    'C03': 'Idempotence relates two parser runs: every reproduction lemma ("the output reproduces the layout decision") needs the parser\'s '
+           'behaviour on the OUTPUT text, which no contract in reach can mention; the only single-function piece (strip_trailing_whitespace is '
+           'idempotent on its own output) follows from C11 and does not decide C03 (DESIGN.md 5/C03).',
     'C02': 'Compiled-output equality is C01 composed with the external Typst evaluator/layouter; no contract on a function of '
            'this repository can mention compilation, so no obligation in reach can express or decide it (DESIGN.md 5/C02).',
     'C17': 'Quantifies over thread schedules and call histories; Kani has no threads and Verus needs its permission types on '
